@@ -275,6 +275,37 @@ func (w *World) mapRangeIdiom(fn *ssa.Function, rg *ssa.Range) (string, string) 
 			}
 		}
 	}
+	// (v) the only effects are deletions of the iteration's own key from the ranged map
+	// (safe during a range, and commutative) and calls of a function-typed parameter
+	// to which every caller hands an effect-free function literal (a log line)
+	if len(others) > 0 && len(mapups) == 0 && len(appends) == 0 {
+		okAll := true
+		nDel := 0
+		for _, in := range others {
+			c, isCall := in.(*ssa.Call)
+			if !isCall {
+				okAll = false
+				break
+			}
+			if bi, isB := c.Common().Value.(*ssa.Builtin); isB && bi.Name() == "delete" {
+				a := c.Common().Args
+				if len(a) == 2 && stripConv(a[0]) == stripConv(rg.X) && keyV != nil && a[1] == keyV {
+					nDel++
+					continue
+				}
+				okAll = false
+				break
+			}
+			if pr, isParam := c.Common().Value.(*ssa.Parameter); isParam && w.paramOnlyEffectFreeFuncs(fn, pr) {
+				continue
+			}
+			okAll = false
+			break
+		}
+		if okAll && nDel > 0 {
+			return "each iteration only deletes its own key from the ranged map (and calls an effect-free callback)", ""
+		}
+	}
 	switch {
 	case len(others) == 0 && len(mapups) > 0 && len(appends) == 0:
 		for _, m := range mapups {
@@ -303,6 +334,63 @@ func (w *World) mapRangeIdiom(fn *ssa.Function, rg *ssa.Range) (string, string) 
 		return "no effect inside the loop (pure search / commutative accumulation)", ""
 	}
 	return "", fmt.Sprintf("the loop body performs %d call(s)/store(s) whose order follows the map", len(others))
+}
+
+// paramOnlyEffectFreeFuncs: every (static) call site of fn hands, for the
+// function-typed parameter pr, a function literal or function whose body has no
+// effect: no store through a field, no map update, no call other than logger
+// methods and pure conversions.
+func (w *World) paramOnlyEffectFreeFuncs(fn *ssa.Function, pr *ssa.Parameter) bool {
+	idx := -1
+	for i, p := range fn.Params {
+		if p == pr {
+			idx = i
+		}
+	}
+	cs := w.nodeCallers(fn)
+	if idx < 0 || len(cs) == 0 {
+		return false
+	}
+	for _, c := range cs {
+		if c.Site == nil || c.Site.Common().StaticCallee() == nil || idx >= len(c.Site.Common().Args) {
+			return false
+		}
+		f, _ := w.calleeOfValue(c.Site.Common().Args[idx])
+		if f == nil || f.Blocks == nil {
+			return false
+		}
+		for _, b := range f.Blocks {
+			for _, in := range b.Instrs {
+				switch y := in.(type) {
+				case *ssa.MapUpdate, *ssa.Go, *ssa.Defer, *ssa.Send:
+					return false
+				case *ssa.Store:
+					if _, isFA := y.Addr.(*ssa.FieldAddr); isFA {
+						return false
+					}
+					if _, isFV := y.Addr.(*ssa.FreeVar); isFV {
+						return false
+					}
+				case ssa.CallInstruction:
+					cc := y.Common()
+					if cc.IsInvoke() {
+						if strings.Contains(typeStr(cc.Value.Type()), "Logger") {
+							continue
+						}
+						return false
+					}
+					if _, isB := cc.Value.(*ssa.Builtin); isB {
+						continue
+					}
+					if cal := cc.StaticCallee(); cal != nil && (pureLibrary(cal) || w.pureFn(cal, 0) || cal.Name() == "String") {
+						continue
+					}
+					return false
+				}
+			}
+		}
+	}
+	return true
 }
 
 // appendTargetPhi: the loop-carried slice an append feeds.
